@@ -226,6 +226,22 @@ def run_assign(spec, res):
                     res.count("default_fields_checked")
                     if not same(effective(ss, s, f), dflt):
                         res.violate("default_changed", "[%s].%s was not supplied but is %r instead of the default %r" % (s, f, effective(ss, s, f), dflt))
+        # values changed on the live configuration objects (the way scripts do it) are part of the configuration in effect
+        set_later = {}
+        if rng.random() < 0.6:
+            for _ in range(int(rng.integers(1, 4))):
+                s_ = sections[int(rng.integers(0, len(sections)))]
+                fl = [f_ for f_ in F[s_] if (s_, f_) not in SKIP]
+                if not fl:
+                    continue
+                f_ = fl[int(rng.integers(0, len(fl)))]
+                t_ = other_value(rng, F[s_][f_][0], F[s_][f_][1])
+                if t_ is None:
+                    continue
+                cfg = ss.config if s_ == "System" else (ss.routines[s_].config if s_ in ss.routines else ss.models[s_].config)
+                setattr(cfg, f_, text_parse(t_))
+                set_later[(s_, f_)] = text_parse(t_)
+                res.count("fields_set_by_attribute")
         # save -> load
         path = os.path.join(sd, "saved.rc")
         ss.save_config(path, overwrite=True)
@@ -235,8 +251,10 @@ def run_assign(spec, res):
                 a, b = effective(ss, s, f), effective(ss2, s, f)
                 res.count("roundtrip_fields")
                 if not same(a, b) and not (isinstance(a, float) and a != a):
-                    res.violate("save_load", "[%s].%s = %r (%s) is %r (%s) after save_config -> load" % (
-                        s, f, a, type(a).__name__, b, type(b).__name__), section=s, field=f)
+                    res.violate("save_load_after_attribute_set" if (s, f) in set_later else "save_load",
+                                "[%s].%s = %r (%s) is %r (%s) after save_config -> load%s" % (
+                        s, f, a, type(a).__name__, b, type(b).__name__, " (value assigned to the config attribute after construction)" if (s, f) in set_later else ""),
+                        section=s, field=f)
     res.sig = "assign:%s:%d:%d" % (mode, spec.get("seed", 0), spec["index"])
     res.nontrivial = res.obs.get("fields_checked", 0) >= 20
     res.sample = dict(mode=mode, fields=len(assign), options=options[:3], file_sections=list(rc_sections)[:5])
